@@ -270,7 +270,7 @@ class Analysis:
             if stc["kind"] == "if":
                 ncond = stc["n"] - (1 if s["else"] else 0)
                 for a in range(ncond):
-                    out.append((f"c:{i}:{a}", 2))
+                    out.append((f"c:{i}:{a}", 4 if s.get("wide") else 2))
             elif stc["kind"] == "switch":
                 out.append((f"sel:{i}", 1 << s["w"]))
             else:
@@ -302,10 +302,12 @@ class Analysis:
         s = stc["s"]
         if stc["kind"] == "if":
             ncond = stc["n"] - (1 if s["else"] else 0)
+            # "wide": the condition is the two-bit expression `input & 2` (true iff bit 1 of the input is set)
+            holds = (lambda e: bool(val[f"c:{sid}:{e}"] & 2)) if s.get("wide") else (lambda e: bool(val[f"c:{sid}:{e}"]))
             for e in range(min(alt, ncond)):
-                if val[f"c:{sid}:{e}"]:
+                if holds(e):
                     return False
-            return True if alt >= ncond else bool(val[f"c:{sid}:{alt}"])
+            return True if alt >= ncond else holds(alt)
         if stc["kind"] == "switch":
             sel = val[f"sel:{sid}"]
             npat = len(s["pats"])
@@ -494,10 +496,11 @@ class _Sub(Elaboratable):
                     n = len(s["alts"])
                     ncond = n - (1 if s["else"] else 0)
                     for a, sub in enumerate(s["alts"]):
+                        cexp = (lambda q: (d.inp[q] & 2)) if s.get("wide") else (lambda q: d.inp[q])
                         if a == 0:
-                            cm = m.If(d.inp[f"c:{sid}:0"])
+                            cm = m.If(cexp(f"c:{sid}:0"))
                         elif a < ncond:
-                            cm = m.Elif(d.inp[f"c:{sid}:{a}"])
+                            cm = m.Elif(cexp(f"c:{sid}:{a}"))
                         else:
                             cm = m.Else()
                         with cm:
@@ -1057,7 +1060,7 @@ def gen_spec(
                         for c in calls0:
                             a.append(dict(c, en=allow_enable and draw(st.integers(0, 3)) == 0,
                                           arg=None if (c["arg"] is None or draw(st.booleans())) else c["arg"]))
-                out.append(dict(t="if", alts=alts, **{"else": nalt > 1 and draw(st.booleans())}))
+                out.append(dict(t="if", alts=alts, wide=draw(st.integers(0, 3)) == 0, **{"else": nalt > 1 and draw(st.booleans())}))
             elif depth < 2 and k < 17 and allow_switch:
                 w = draw(st.integers(1, 2))
                 vals = list(range(1 << w))
